@@ -49,6 +49,7 @@ SpecMaxFut == LET S == {TaskMaxFut(W, Name(i)) : i \in DOMAIN pool} IN IF S = {}
 (* ---------------------------- clause groups ---------------------------- *)
 
 \* spawn: a proxy enters the pool
+CmdContexts == {"cmd:set", "cmd:force_trigger_tasks", "cmd:remove_tasks", "cmd:reload_workflow"}
 SpawnViol(ev) ==
   LET t == ev.t  id == t.id IN
      Chk("C07_PoolWithinBounds", InBounds(W, Pt(id)) /\ ValidPoint(W, Name(id), Pt(id)))
@@ -57,6 +58,12 @@ SpawnViol(ev) ==
            (id \in env.tohold \/ (env.holdpt # NoPoint /\ Pt(id) > env.holdpt)) => t.held)
   \cup Chk("C46_NothingBeforeStart", Opt.manual \/ Pt(id) >= W.start)
   \cup Chk("C08_ChildCarriesParentFlows", ev.haspar => ev.parflows \subseteq t.flows)
+  \* a task that finished complete in a flow is not spawned again (as a waiting task) when that flow - alone or merged
+  \* with others - reaches it again through an output (commands that name the task start it afresh: they erase that
+  \* record, see the cmd event)
+  \cup Chk("C08_NoRespawnInFinishedFlow",
+           (ev.haspar /\ t.st = "waiting" /\ ev.cx \cap CmdContexts = {}) =>
+              t.flows \cap UNION {c[2] : c \in {x \in env.completedIn : x[1] = id}} = {})
   \cup Chk("C32_OnlyExpireChildren",
            (ev.haspar /\ ev.parout = "expired") =>
               \E c \in Children(W, Name(ev.parid), Pt(ev.parid), "expired") : c.t = Name(id) /\ c.p = Pt(id))
@@ -69,6 +76,7 @@ FlowViol(ev) ==
 SpawnCov(ev) == {"C07_PoolWithinBounds", "C26_NoDuplicateProxy"} \cup Cov("C08_ChildCarriesParentFlows", ev.haspar)
   \cup Cov("C32_OnlyExpireChildren", ev.haspar /\ ev.parout = "expired")
   \cup Cov("C08_ChildCarriesSeveralFlows", ev.haspar /\ Cardinality(ev.parflows) > 1)
+  \cup Cov("C08_NoRespawnInFinishedFlow", ev.haspar /\ \E x \in env.completedIn : x[1] = ev.t.id)
   \cup Cov("C06_FutureHoldApplies", ev.t.id \in env.tohold \/ (env.holdpt # NoPoint /\ Pt(ev.t.id) > env.holdpt))
 
 \* remove: a proxy leaves the pool
